@@ -120,6 +120,41 @@ def run(ctx):
                             'the empty string, which COPY FROM reads back as NULL')
     ctx.floor(R4, n_d, 6, 'Display impls of owned value types')
 
+    R5 = 'C19-R5'
+    ctx.rule(R5, 'Display prints all of every stored field: where a field is printed through unit accessors (years / months of `months`; '
+                 'hours / minutes / seconds of `ms`), the remainders (`% 12`, `% 60`) need one accessor for the top unit that has NO remainder, '
+                 'otherwise whatever exceeds the modulus is printed nowhere ("25 hours" as "1 hour") and parse(display(v)) != v while Eq / Ord / '
+                 'Hash still see the whole value')
+    from mir import operand_places, pl_fields
+    n_f = 0
+    for ty in OWNED:
+        for i in prog.impls:
+            if i['self_adt'] != ty or i.get('trait') != 'std::fmt::Display':
+                continue
+            for m in i['items']:
+                fb = prog.bodies.get(m)
+                if fb is None or not m.endswith('::fmt'):
+                    continue
+                per_field = {}
+                for c in [c for g in prog.group(fb.root) for c in g.calls]:
+                    ab = prog.bodies.get(c.res or '') or prog.bodies.get(c.fn or '')
+                    if ab is None or not ab.name.startswith(ty + '::') or ab.rec.get('argc') != 1:
+                        continue
+                    flds = {f for _, st in ab.stmts() for pl in operand_places(st) for f in pl_fields(pl) if f.startswith(ty + '::')}
+                    rem = any(st['s'] == 'assign' and st['rv'].get('rv') == 'binop' and st['rv']['op'].startswith('Rem') for _, st in ab.stmts())
+                    if len(flds) == 1:
+                        per_field.setdefault(next(iter(flds)), {})[ab.name.rsplit('::', 1)[-1]] = rem
+                for f, accs in sorted(per_field.items()):
+                    if not any(accs.values()):
+                        continue                    # printed whole by every accessor
+                    n_f += 1
+                    ctx.functions_analysed.add(fb.name)
+                    ctx.ob(R5, f'{short(ty)}·{f.rsplit("::", 1)[-1]}·top-unit-printed-whole', not all(accs.values()),
+                           f'{ty}: Display prints `{f.rsplit("::", 1)[-1]}` through {{accessor: has a remainder}} = {accs}', [fb.loc],
+                           what=f'every accessor through which Display prints {short(ty)}.{f.rsplit("::", 1)[-1]} takes a remainder: the part of the value '
+                                'above the largest modulus is dropped from the text, so printing and parsing back gives a different (smaller) value')
+    ctx.floor(R5, n_f, 2, 'fields printed through unit accessors with remainders')
+
 
 def delegation(prog, impl, tr):
     """A manual relation next to a derived equality is accepted only when it is the derived relation of the wrapped value:
